@@ -109,6 +109,17 @@ Theorem C10_borders_adjacent :
   forall cols rows, apply_borders cols rows = table_spec cols rows.
 Proof. exact borders_adjacent. Qed.
 Print Assumptions C10_borders_adjacent.
+(* M1 and M3 joined: the styles of the table digested from the source of an abstract table are the Spec's styles of the table
+   as written ([acell_of]: the rule commands written before / after the content of each cell, its \multicolumn span and type) *)
+Theorem C10_cell_view_written :
+  forall d d' cell, cell_view (T KCell d' (map (tree_of d) cell)) = acell_of cell.
+Proof. exact cell_view_written. Qed.
+Theorem C10_written_table_styles :
+  forall cols d rows,
+  apply_borders cols (map row_view (map (fun row => T KRow d (map (fun cell => T KCell d (map (tree_of d) cell)) row)) rows))
+  = table_spec cols (map (map acell_of) rows).
+Proof. exact written_table_styles. Qed.
+Print Assumptions C10_written_table_styles.
 Theorem C10_covers_hline : forall s sp, covers s sp RH = true.
 Proof. exact covers_hline. Qed.
 Theorem C10_covers_cline : forall s sp a b, covers s sp (RC a b) = true <-> (a <= s + sp - 1 /\ s <= b).
